@@ -60,7 +60,8 @@ if sys.argv[1] in ('verify', 'verify2'):
 elif sys.argv[1] == 'run':
     ID = sys.argv[2]
     props = sys.argv[3:]
-    for d in sorted(glob.glob(os.path.join(ROOT, 'seeded', ID + '-*'))):
+    exact = os.path.join(ROOT, 'seeded', ID)
+    for d in ([exact] if os.path.isdir(exact) else sorted(glob.glob(os.path.join(ROOT, 'seeded', ID + '-*')))):
         meta = json.load(open(os.path.join(d, 'meta.json')))
         if not meta.get('confirmed'):
             print(d, 'not confirmed, skipped')
